@@ -2,12 +2,13 @@
   Helper lemmas for the source tie: the definitions of `RenetVerif/Generated/Src.lean` (regenerated from
   the Rust text by /verif/translator on every check run) agree with the hand-written model.
   Sections: step lemmas for the RustSem primitives; A replay protection; B netcode prefix byte;
-  C slice constructor.  Headline statements are in `Props/SrcTie.lean`.
+  C slice constructor; D `Packet::to_bytes` over the octets model.  Headline statements are in `Props/SrcTie.lean`.
 -/
 import RenetVerif.Generated.Src
 import RenetVerif.Netcode.Replay
 import RenetVerif.Netcode.Wire
 import RenetVerif.Renet.Channels
+import RenetVerif.Renet.Packet
 namespace RenetVerif.SrcEquiv
 open RenetVerif RenetVerif.RustSem
 
@@ -147,7 +148,6 @@ theorem and_byte_mask (x k : Nat) : x &&& (255 <<< (8 * k)) = 0 ↔ x / 256 ^ k 
       simp [h, this]
     · simp [h]
   rw [e, Nat.shiftLeft_eq, Nat.mul_eq_zero]
-  have h2 : (2 : Nat) ^ (8 * k) ≠ 0 := Nat.pos_iff_ne_zero.mp (Nat.pow_pos (by decide))
   have h3 : (x >>> (8 * k)) &&& 255 = x / 256 ^ k % 256 := by
     rw [show (255 : Nat) = 2 ^ 8 - 1 by decide, Nat.and_two_pow_sub_one_eq_mod, Nat.shiftRight_eq_div_pow, Nat.pow_mul]
   rw [h3]
@@ -410,4 +410,551 @@ theorem reprSC_absSC (st : SliceConstructor) (h : BytesOk st.sliced_data) : repr
 theorem absSC_reprSC (mid : Nat) (c : SliceCtor) : absSC (reprSC mid c) = c := by
   cases c; simp [absSC, reprSC, ofNats_toNats]
 end C
+
+/-! ## D. `Packet::to_bytes` over the octets model -/
+section D
+open Src.renet.packet
+abbrev SSerErr := Src.renet.packet.SerializationError
+
+/-- buffer invariant of `OctetsMut` -/
+def OInv (b : OctetsMut) : Prop := b.off ≤ b.buf.length
+
+/-- the cursor after writing `xs` at the offset -/
+def owrite (b : OctetsMut) (xs : List Nat) : OctetsMut :=
+  { buf := b.buf.take b.off ++ xs ++ b.buf.drop (b.off + xs.length), off := b.off + xs.length }
+
+/-- specification of a successful/failed write of `xs` -/
+def W {ρ : Type} (b : OctetsMut) (xs : List Nat) : Exec SSerErr ρ OctetsMut :=
+  if b.off + xs.length ≤ b.buf.length then .val (owrite b xs) else .err .BufferTooShort
+
+theorem owrite_inv {b : OctetsMut} {xs : List Nat} (h : b.off + xs.length ≤ b.buf.length) : OInv (owrite b xs) := by
+  simp only [OInv, owrite, List.length_append, List.length_take, List.length_drop]; omega
+
+theorem owrite_length {b : OctetsMut} {xs : List Nat} (h : b.off + xs.length ≤ b.buf.length) :
+    (owrite b xs).buf.length = b.buf.length := by
+  simp only [owrite, List.length_append, List.length_take, List.length_drop]; omega
+
+theorem owrite_nil (b : OctetsMut) : owrite b [] = b := by
+  cases b; simp [owrite]
+
+theorem owrite_owrite {b : OctetsMut} {xs ys : List Nat} (h : b.off + xs.length ≤ b.buf.length) :
+    owrite (owrite b xs) ys = owrite b (xs ++ ys) := by
+  obtain ⟨buf, off⟩ := b
+  simp only [owrite, List.length_append] at *
+  have e1 : (List.take off buf ++ xs ++ List.drop (off + xs.length) buf).take (off + xs.length) = List.take off buf ++ xs := by
+    rw [List.take_append_of_le_length (by simp; omega)]
+    rw [List.take_of_length_le (by simp; omega)]
+  have e2 : (List.take off buf ++ xs ++ List.drop (off + xs.length) buf).drop (off + xs.length + ys.length)
+      = List.drop (off + (xs.length + ys.length)) buf := by
+    rw [List.drop_append]
+    simp only [List.length_append, List.length_take, List.drop_drop]
+    have : off + xs.length + ys.length - (min off buf.length + xs.length) = ys.length := by omega
+    rw [this, List.drop_of_length_le (by simp; omega)]
+    simp; congr 1; omega
+  rw [e1, e2]; simp [Nat.add_assoc]
+
+theorem W_nil {ρ} {b : OctetsMut} (h : OInv b) : (W b [] : Exec SSerErr ρ _) = .val b := by
+  simp [W, owrite_nil, OInv] at *; exact h
+
+theorem W_bind {ρ β} (b : OctetsMut) (xs ys : List Nat) (k : OctetsMut → Exec SSerErr ρ β) :
+    (W b xs).bind (fun b' => (W b' ys).bind k) = (W b (xs ++ ys)).bind k := by
+  unfold W
+  by_cases h1 : b.off + xs.length ≤ b.buf.length
+  · rw [if_pos h1, Exec.bind_val']
+    have hl := owrite_length h1
+    by_cases h2 : b.off + (xs ++ ys).length ≤ b.buf.length
+    · have : (owrite b xs).off + ys.length ≤ (owrite b xs).buf.length := by
+        rw [hl]; simp [owrite] at *; omega
+      rw [if_pos this, if_pos h2, owrite_owrite h1]
+    · have : ¬ (owrite b xs).off + ys.length ≤ (owrite b xs).buf.length := by
+        rw [hl]; simp [owrite] at *; omega
+      rw [if_neg this, if_neg h2]
+  · have h2 : ¬ b.off + (xs ++ ys).length ≤ b.buf.length := by simp at *; omega
+    rw [if_neg h1, if_neg h2]; rfl
+
+theorem conv_bts {ε} (e : BufferTooShortError) :
+    (SerializationError.from_BufferTooShortError e : Res ε SSerErr) = .ok .BufferTooShort := rfl
+
+theorem beBytes_length (v n : Nat) : (RustSem.beBytes v n).length = n := by
+  induction n with
+  | zero => rfl
+  | succ k ih => simp [RustSem.beBytes, ih]
+
+theorem callFrom_putBE {ρ} (b : OctetsMut) (v len : Nat) :
+    (Exec.callFrom SerializationError.from_BufferTooShortError (OctetsMut.putBE b v len) : Exec SSerErr ρ _)
+      = (W b (RustSem.beBytes v len)).bind (fun b' => .val (b', ())) := by
+  unfold OctetsMut.putBE W
+  simp only [beBytes_length]
+  by_cases h : b.buf.length < b.off + len
+  · have h' : ¬ b.off + len ≤ b.buf.length := by omega
+    rw [if_pos h, if_neg h']; rfl
+  · have h' : b.off + len ≤ b.buf.length := by omega
+    rw [if_neg h, if_pos h']; simp only [Exec.callFrom, Exec.bind_val', owrite, beBytes_length]
+
+theorem callFrom_put_bytes {ρ} (b : OctetsMut) (v : List Nat) (hb : OInv b) :
+    (Exec.callFrom SerializationError.from_BufferTooShortError (OctetsMut.put_bytes b v) : Exec SSerErr ρ _)
+      = (W b v).bind (fun b' => .val (b', ())) := by
+  unfold OctetsMut.put_bytes W OctetsMut.cap
+  unfold OInv at hb
+  by_cases h : b.buf.length - b.off < v.length
+  · have h' : ¬ b.off + v.length ≤ b.buf.length := by omega
+    rw [if_pos h, if_neg h']; rfl
+  · have h' : b.off + v.length ≤ b.buf.length := by omega
+    rw [if_neg h, if_pos h']
+    by_cases h0 : v.length = 0
+    · have : v = [] := List.eq_nil_of_length_eq_zero h0
+      subst this
+      simp [Exec.callFrom, Exec.bind_val', owrite_nil]
+    · rw [if_neg h0]; simp only [Exec.callFrom, Exec.bind_val', owrite]
+
+theorem orAt_owrite (b : OctetsMut) (y m : Nat) (r : List Nat) (hb : OInv b) :
+    (owrite b (y :: r)).orAt b.off m = owrite b ((y ||| m) :: r) := by
+  obtain ⟨buf, off⟩ := b
+  unfold OInv at hb
+  simp only at hb
+  have hl : (List.take off buf).length = off := by simp; omega
+  have hg : (List.take off buf ++ (y :: r) ++ List.drop (off + (y :: r).length) buf)[off]? = some y := by
+    rw [List.append_assoc, List.getElem?_append_right (by omega), hl]; simp
+  simp only [OctetsMut.orAt, owrite, hg]
+  congr 1
+  rw [List.append_assoc, List.set_append_right _ _ (by omega), hl]
+  simp
+
+theorem or_top2 (x k : Nat) (hx : x < 64) : x ||| (k * 64) = x + k * 64 := by
+  have : k * 64 = k <<< 6 := by rw [Nat.shiftLeft_eq]
+  rw [this, Nat.or_comm, ← Nat.shiftLeft_add_eq_or_of_lt (by simpa using hx)]; omega
+
+theorem toNats_beBytes (v n : Nat) : toNats (Varint.beBytes v n) = RustSem.beBytes v n := by
+  induction n with
+  | zero => rfl
+  | succ k ih =>
+    simp only [toNats, Varint.beBytes, List.map_cons, RustSem.beBytes] at ih ⊢
+    rw [ih]; simp [UInt8.toNat_ofNat']
+
+set_option maxRecDepth 20000 in
+theorem callFrom_put_varint {ρ} (b : OctetsMut) (v : Nat) (hb : OInv b) (hv : v ≤ Varint.MAX) :
+    (Exec.callFrom SerializationError.from_BufferTooShortError (OctetsMut.put_varint b v) : Exec SSerErr ρ _)
+      = (W b (toNats (Varint.enc v))).bind (fun b' => .val (b', ())) := by
+  have hcap : ∀ n, (b.cap < n) = (¬ b.off + n ≤ b.buf.length) := by
+    intro n; unfold OInv at hb; unfold OctetsMut.cap; apply propext; omega
+  have hWerr : ∀ xs : List Nat, ¬ b.off + xs.length ≤ b.buf.length →
+      ((W b xs).bind (fun b' => .val (b', ())) : Exec SSerErr ρ (OctetsMut × Unit)) = .err .BufferTooShort := by
+    intro xs h; unfold W; rw [if_neg h]; rfl
+  have hput : ∀ (x n : Nat), b.off + n ≤ b.buf.length →
+      OctetsMut.putBE b x n = .ok (owrite b (RustSem.beBytes x n), ()) := by
+    intro x n h
+    unfold OctetsMut.putBE
+    rw [if_neg (by omega)]; simp only [owrite, beBytes_length]
+  have hWok : ∀ xs : List Nat, b.off + xs.length ≤ b.buf.length →
+      ((W b xs).bind (fun b' => .val (b', ())) : Exec SSerErr ρ (OctetsMut × Unit)) = .val (owrite b xs, ()) := by
+    intro xs h; unfold W; rw [if_pos h]; rfl
+  unfold Varint.MAX at hv
+  unfold OctetsMut.put_varint RustSem.varint_len Varint.enc
+  by_cases h1 : v ≤ 63
+  · simp only [h1, if_true, hcap, toNats_beBytes]
+    by_cases hf : b.off + 1 ≤ b.buf.length
+    · rw [if_neg (fun hn => hn hf), hWok _ (by simpa [beBytes_length] using hf)]
+      simp only [OctetsMut.put_u8, hput _ _ hf, Exec.callFrom]
+      congr 3
+      simp only [RustSem.beBytes, Nat.pow_zero, Nat.div_one]
+      congr 1; omega
+    · rw [if_pos hf, hWerr _ (by simpa [beBytes_length] using hf)]; rfl
+  by_cases h2 : v ≤ 16383
+  · simp only [h1, h2, if_true, if_false, hcap, toNats_beBytes]
+    by_cases hf : b.off + 2 ≤ b.buf.length
+    · rw [if_neg (fun hn => hn hf), hWok _ (by simpa [beBytes_length] using hf)]
+      simp only [OctetsMut.put_u16, hput _ _ hf, Exec.callFrom, RustSem.beBytes, orAt_owrite _ _ _ _ hb]
+      have e : v % 2 ^ 16 / 256 ^ 1 % 256 < 64 := by omega
+      rw [show (0x40 : Nat) = 1 * 64 by rfl, or_top2 _ 1 e]
+      congr 3
+      simp only [Nat.pow_zero, Nat.div_one, Nat.pow_one]
+      congr 1
+      · omega
+      · congr 1; omega
+    · rw [if_pos hf, hWerr _ (by simpa [beBytes_length] using hf)]; rfl
+  by_cases h3 : v ≤ 1073741823
+  · simp only [h1, h2, h3, if_true, if_false, hcap, toNats_beBytes]
+    by_cases hf : b.off + 4 ≤ b.buf.length
+    · rw [if_neg (fun hn => hn hf), hWok _ (by simpa [beBytes_length] using hf)]
+      simp only [OctetsMut.put_u32, hput _ _ hf, Exec.callFrom, RustSem.beBytes, orAt_owrite _ _ _ _ hb]
+      have e : v % 2 ^ 32 / 256 ^ 3 % 256 < 64 := by omega
+      rw [show (0x80 : Nat) = 2 * 64 by rfl, or_top2 _ 2 e]
+      congr 3
+      simp only [Nat.pow_zero, Nat.div_one, Nat.pow_one]
+      congr 1
+      · omega
+      · congr 1
+        · omega
+        · congr 1
+          · omega
+          · congr 1; omega
+    · rw [if_pos hf, hWerr _ (by simpa [beBytes_length] using hf)]; rfl
+  · simp only [h1, h2, h3, hv, if_true, if_false, hcap, toNats_beBytes]
+    by_cases hf : b.off + 8 ≤ b.buf.length
+    · rw [if_neg (fun hn => hn hf), hWok _ (by simpa [beBytes_length] using hf)]
+      simp only [OctetsMut.put_u64, hput _ _ hf, Exec.callFrom, RustSem.beBytes, orAt_owrite _ _ _ _ hb]
+      have e : v / 256 ^ 7 % 256 < 64 := by omega
+      rw [show (0xc0 : Nat) = 3 * 64 by rfl, or_top2 _ 3 e]
+      have hm : v % 2 ^ 62 = v := Nat.mod_eq_of_lt (by omega)
+      rw [hm]
+      congr 3
+      simp only [Nat.pow_zero, Nat.div_one, Nat.pow_one]
+      have hv' : v < 4611686018427387904 := by omega
+      clear hput hWok hWerr hcap hm hf hb h1 h2 h3 hv
+      congr 1
+      · omega
+      · congr 1
+        · omega
+        · congr 1
+          · omega
+          · congr 1
+            · omega
+            · congr 1
+              · omega
+              · congr 1
+                · omega
+                · congr 1
+                  · omega
+                  · congr 1; omega
+    · rw [if_pos hf, hWerr _ (by simpa [beBytes_length] using hf)]; rfl
+
+theorem W_chain {ρ β} {b : OctetsMut} (xs ys : List Nat) (f g : OctetsMut → Exec SSerErr ρ β)
+    (h : ∀ b', OInv b' → f b' = (W b' ys).bind g) :
+    (W b xs).bind f = (W b (xs ++ ys)).bind g := by
+  rw [← W_bind]
+  unfold W
+  by_cases h1 : b.off + xs.length ≤ b.buf.length
+  · rw [if_pos h1, Exec.bind_val', Exec.bind_val', h _ (owrite_inv h1)]; rfl
+  · rw [if_neg h1]; rfl
+
+abbrev conv := @SerializationError.from_BufferTooShortError SSerErr
+
+theorem step_varint {ρ β} {b : OctetsMut} {v : Nat} (hv : v ≤ Varint.MAX) (xs : List Nat)
+    (k : OctetsMut × Unit → Exec SSerErr ρ β) :
+    (W b xs).bind (fun b' => (Exec.callFrom conv (OctetsMut.put_varint b' v)).bind k)
+      = (W b (xs ++ toNats (Varint.enc v))).bind (fun b' => k (b', ())) :=
+  W_chain _ _ _ _ (fun b' hb' => by rw [callFrom_put_varint b' v hb' hv, Exec.bind_assoc']; rfl)
+
+theorem step_u8 {ρ β} {b : OctetsMut} (v : Nat) (xs : List Nat)
+    (k : OctetsMut × Unit → Exec SSerErr ρ β) :
+    (W b xs).bind (fun b' => (Exec.callFrom conv (OctetsMut.put_u8 b' v)).bind k)
+      = (W b (xs ++ [v % 256])).bind (fun b' => k (b', ())) :=
+  W_chain _ _ _ _ (fun b' _ => by
+    rw [OctetsMut.put_u8, callFrom_putBE, Exec.bind_assoc']; simp [RustSem.beBytes]; rfl)
+
+theorem step_u16 {ρ β} {b : OctetsMut} (v : Nat) (xs : List Nat)
+    (k : OctetsMut × Unit → Exec SSerErr ρ β) :
+    (W b xs).bind (fun b' => (Exec.callFrom conv (OctetsMut.put_u16 b' v)).bind k)
+      = (W b (xs ++ [v / 256 % 256, v % 256])).bind (fun b' => k (b', ())) :=
+  W_chain _ _ _ _ (fun b' _ => by
+    rw [OctetsMut.put_u16, callFrom_putBE, Exec.bind_assoc']; simp [RustSem.beBytes]; rfl)
+
+theorem step_bytes {ρ β} {b : OctetsMut} (v : List Nat) (xs : List Nat)
+    (k : OctetsMut × Unit → Exec SSerErr ρ β) :
+    (W b xs).bind (fun b' => (Exec.callFrom conv (OctetsMut.put_bytes b' v)).bind k)
+      = (W b (xs ++ v)).bind (fun b' => k (b', ())) :=
+  W_chain _ _ _ _ (fun b' hb' => by rw [callFrom_put_bytes b' v hb', Exec.bind_assoc']; rfl)
+
+theorem W_start {ρ β} {b : OctetsMut} (hb : OInv b) (f : OctetsMut → Exec SSerErr ρ β) : f b = (W b []).bind f := by
+  rw [W_nil hb]; rfl
+
+def reprSlice (s : Slice) : Src.renet.packet.Slice := ⟨s.messageId, s.sliceIndex, s.numSlices, toNats s.payload⟩
+def reprRange (r : AckRange) : RustSem.Range := ⟨r.1, r.2⟩
+def reprPacket : RenetVerif.Packet → Src.renet.packet.Packet
+  | .smallReliable s c m => .SmallReliable s c (m.map fun x => (x.1, toNats x.2))
+  | .smallUnreliable s c m => .SmallUnreliable s c (m.map toNats)
+  | .reliableSlice s c sl => .ReliableSlice s c (reprSlice sl)
+  | .unreliableSlice s c sl => .UnreliableSlice s c (reprSlice sl)
+  | .ack s r => .Ack s (r.map reprRange)
+
+theorem cast64_of_le_max {v : Nat} (h : v ≤ Varint.MAX) : RustSem.cast 64 v = v :=
+  cast_of_lt (Nat.lt_of_le_of_lt h (by decide))
+theorem len_toNats (x : Bytes) : RustSem.len (toNats x) = x.length := by simp [RustSem.len, toNats]
+
+theorem putVarint_ok {v : Nat} {x : Bytes} (h : putVarint v = .ok x) : v ≤ Varint.MAX ∧ x = Varint.enc v := by
+  unfold putVarint at h
+  by_cases hv : v ≤ Varint.MAX
+  · rw [if_pos hv] at h; exact ⟨hv, (Res.ok.inj h).symm⟩
+  · rw [if_neg hv] at h; cases h
+
+/-- the result of `to_bytes` when the body wrote `bytes` -/
+def finish (b : OctetsMut) (bytes : List Nat) : Res SSerErr (OctetsMut × Nat) :=
+  if b.off + bytes.length ≤ b.buf.length then .ok (owrite b bytes, bytes.length) else .err .BufferTooShort
+
+theorem finish_eq {b : OctetsMut} (_hb : OInv b) (bytes : List Nat) (site : String) :
+    ((W b bytes).bind fun b' =>
+      (RustSem.sub 64 (OctetsMut.cap b) (OctetsMut.cap b') site).bind fun t => Exec.val (b', t)).run
+      = finish b bytes := by
+  unfold W finish
+  by_cases h : b.off + bytes.length ≤ b.buf.length
+  · rw [if_pos h, if_pos h, Exec.bind_val']
+    have hl := owrite_length h
+    have : OctetsMut.cap (owrite b bytes) ≤ OctetsMut.cap b := by
+      unfold OctetsMut.cap; rw [hl]; simp [owrite]; omega
+    rw [sub_val this, Exec.bind_val', Exec.run_val]
+    congr 2
+    unfold OctetsMut.cap; rw [hl]; simp [owrite]; omega
+  · rw [if_neg h, if_neg h]; rfl
+
+theorem bind_ok_inv {ε α β} {x : Res ε α} {f : α → Res ε β} {r : β} (h : (x >>= f) = .ok r) :
+    ∃ a, x = .ok a ∧ f a = .ok r := by
+  cases x with
+  | ok a => exact ⟨a, rfl, h⟩
+  | err e => cases h
+  | panic s => cases h
+
+theorem Exec.bind_val_id {ε ρ α} (x : Exec ε ρ α) : x.bind Exec.val = x := by cases x <;> rfl
+
+theorem forEach_chain {α ρ β} (l : List α) (f : α → List Nat) (body : α → OctetsMut → Exec SSerErr ρ OctetsMut)
+    (hbody : ∀ x ∈ l, ∀ b', OInv b' → body x b' = W b' (f x)) (xs : List Nat) (b : OctetsMut)
+    (k : OctetsMut → Exec SSerErr ρ β) :
+    (W b xs).bind (fun b' => (RustSem.forEach l b' body).bind k) = (W b (xs ++ (l.map f).flatten)).bind k := by
+  induction l generalizing xs with
+  | nil => simp [RustSem.forEach, Exec.bind_val']
+  | cons x r ih =>
+    have h1 : (W b xs).bind (fun b' => (RustSem.forEach (x :: r) b' body).bind k)
+        = (W b (xs ++ f x)).bind (fun st => (RustSem.forEach r st body).bind k) := by
+      apply W_chain
+      intro b' hb'
+      rw [RustSem.forEach, Exec.bind_assoc', hbody x (by simp) b' hb']
+    rw [h1, ih (fun y hy => hbody y (by simp [hy]))]
+    simp [List.append_assoc]
+
+theorem encSmallRel_ok {msgs : List (Nat × Bytes)} {body : Bytes} (h : encSmallRel msgs = .ok body) :
+    (∀ x ∈ msgs, x.1 ≤ Varint.MAX ∧ x.2.length ≤ Varint.MAX) ∧
+      toNats body = (msgs.map fun x => toNats (Varint.enc x.1) ++ toNats (Varint.enc x.2.length) ++ toNats x.2).flatten := by
+  induction msgs generalizing body with
+  | nil => cases h; simp [toNats]
+  | cons x r ih =>
+    obtain ⟨id, m⟩ := x
+    unfold encSmallRel at h
+    obtain ⟨a, ha, h⟩ := bind_ok_inv h
+    obtain ⟨c, hc, h⟩ := bind_ok_inv h
+    obtain ⟨rest, hrest, h⟩ := bind_ok_inv h
+    obtain ⟨hva, rfl⟩ := putVarint_ok ha
+    obtain ⟨hvc, rfl⟩ := putVarint_ok hc
+    cases h
+    obtain ⟨ih1, ih2⟩ := ih hrest
+    refine ⟨?_, ?_⟩
+    · intro y hy
+      rcases List.mem_cons.mp hy with rfl | hy
+      · exact ⟨hva, hvc⟩
+      · exact ih1 y hy
+    · simp only [List.map_cons, List.flatten_cons, ← ih2]
+      simp [toNats]
+
+theorem encSmallUnrel_ok {msgs : List Bytes} {body : Bytes} (h : encSmallUnrel msgs = .ok body) :
+    (∀ x ∈ msgs, x.length ≤ Varint.MAX) ∧
+      toNats body = (msgs.map fun x => toNats (Varint.enc x.length) ++ toNats x).flatten := by
+  induction msgs generalizing body with
+  | nil => cases h; simp [toNats]
+  | cons m r ih =>
+    unfold encSmallUnrel at h
+    obtain ⟨c, hc, h⟩ := bind_ok_inv h
+    obtain ⟨rest, hrest, h⟩ := bind_ok_inv h
+    obtain ⟨hvc, rfl⟩ := putVarint_ok hc
+    cases h
+    obtain ⟨ih1, ih2⟩ := ih hrest
+    refine ⟨?_, ?_⟩
+    · intro y hy
+      rcases List.mem_cons.mp hy with rfl | hy
+      · exact hvc
+      · exact ih1 y hy
+    · simp only [List.map_cons, List.flatten_cons, ← ih2]
+      simp [toNats]
+
+theorem csub_ok {ε} {a c d : Nat} {site : String} (h : (Res.csub a c site : Res ε Nat) = .ok d) : c ≤ a ∧ d = a - c := by
+  unfold Res.csub at h
+  by_cases hc : c ≤ a
+  · rw [if_pos hc] at h; exact ⟨hc, (Res.ok.inj h).symm⟩
+  · rw [if_neg hc] at h; cases h
+
+/-- value of `previous_range_start` after the ack loop -/
+def lastStart (prev : Nat) : List AckRange → Nat
+  | [] => prev
+  | (s, _) :: r => lastStart s r
+
+theorem ack_loop {ρ β} (rest : List AckRange)
+    (body : RustSem.Range → OctetsMut × Nat → Exec SSerErr ρ (OctetsMut × Nat))
+    (hbody : ∀ (s e prev : Nat) (b' : OctetsMut), OInv b' → e ≤ prev → 1 ≤ prev - e → 1 ≤ e → s ≤ e - 1 →
+      prev - e - 1 ≤ Varint.MAX → e - 1 - s ≤ Varint.MAX →
+      body ⟨s, e⟩ (b', prev) =
+        (W b' (toNats (Varint.enc (prev - e - 1)) ++ toNats (Varint.enc (e - 1 - s)))).bind (fun b'' => .val (b'', s)))
+    (prev : Nat) (bytes : Bytes) (h : encAckRest prev rest = .ok bytes) (xs : List Nat) (b : OctetsMut)
+    (k : OctetsMut × Nat → Exec SSerErr ρ β) :
+    (W b xs).bind (fun b' => (RustSem.forEach (rest.map reprRange) (b', prev) body).bind k)
+      = (W b (xs ++ toNats bytes)).bind (fun b' => k (b', lastStart prev rest)) := by
+  induction rest generalizing prev xs bytes with
+  | nil =>
+    cases h
+    simp [RustSem.forEach, Exec.bind_val', lastStart, toNats]
+  | cons x r ih =>
+    obtain ⟨s, e⟩ := x
+    unfold encAckRest at h
+    obtain ⟨g0, hg0, h⟩ := bind_ok_inv h
+    obtain ⟨gap, hgap, h⟩ := bind_ok_inv h
+    obtain ⟨e1, he1, h⟩ := bind_ok_inv h
+    obtain ⟨size, hsize, h⟩ := bind_ok_inv h
+    obtain ⟨a, ha, h⟩ := bind_ok_inv h
+    obtain ⟨c, hc, h⟩ := bind_ok_inv h
+    obtain ⟨rs, hrs, h⟩ := bind_ok_inv h
+    obtain ⟨c1, rfl⟩ := csub_ok hg0
+    obtain ⟨c2, rfl⟩ := csub_ok hgap
+    obtain ⟨c3, rfl⟩ := csub_ok he1
+    obtain ⟨c4, rfl⟩ := csub_ok hsize
+    obtain ⟨hva, rfl⟩ := putVarint_ok ha
+    obtain ⟨hvc, rfl⟩ := putVarint_ok hc
+    cases h
+    have h1 : (W b xs).bind (fun b' => (RustSem.forEach (((s, e) :: r).map reprRange) (b', prev) body).bind k)
+        = (W b (xs ++ (toNats (Varint.enc (prev - e - 1)) ++ toNats (Varint.enc (e - 1 - s))))).bind
+            (fun st => (RustSem.forEach (r.map reprRange) (st, s) body).bind k) := by
+      apply W_chain
+      intro b' hb'
+      rw [List.map_cons, RustSem.forEach, Exec.bind_assoc']
+      show (body ⟨s, e⟩ (b', prev)).bind _ = _
+      rw [hbody s e prev b' hb' c1 c2 c3 c4 hva hvc, Exec.bind_assoc']
+      rfl
+    rw [h1, ih s rs hrs]
+    simp [toNats, lastStart, List.append_assoc]
+
+theorem to_bytes_eq (p : RenetVerif.Packet) (b : OctetsMut) (hb : OInv b) (bytes : Bytes) (henc : p.enc = .ok bytes) :
+    Src.renet.packet.Packet.to_bytes (reprPacket p) b = finish b (toNats bytes) := by
+  cases p with
+  | reliableSlice seq ch sl =>
+    unfold Packet.enc at henc
+    obtain ⟨s, hs, h⟩ := bind_ok_inv henc
+    obtain ⟨body, hbody, h⟩ := bind_ok_inv h
+    unfold encSlice at hbody
+    obtain ⟨a1, h1, hbody⟩ := bind_ok_inv hbody
+    obtain ⟨a2, h2, hbody⟩ := bind_ok_inv hbody
+    obtain ⟨a3, h3, hbody⟩ := bind_ok_inv hbody
+    obtain ⟨a4, h4, hbody⟩ := bind_ok_inv hbody
+    obtain ⟨hv0, rfl⟩ := putVarint_ok hs
+    obtain ⟨hv1, rfl⟩ := putVarint_ok h1
+    obtain ⟨hv2, rfl⟩ := putVarint_ok h2
+    obtain ⟨hv3, rfl⟩ := putVarint_ok h3
+    obtain ⟨hv4, rfl⟩ := putVarint_ok h4
+    cases hbody; cases h
+    unfold Src.renet.packet.Packet.to_bytes
+    simp only [reprPacket, reprSlice, Exec.bind_eq, Exec.pure_eq]
+    rw [W_start hb (fun b' => (Exec.callFrom SerializationError.from_BufferTooShortError (OctetsMut.put_u8 b' 2)).bind _)]
+    simp only [cast64_of_le_max hv2, cast64_of_le_max hv3, cast64_of_le_max hv4, len_toNats,
+      step_u8, step_varint hv0, step_varint hv1, step_varint hv2, step_varint hv3, step_varint hv4, step_bytes,
+      Exec.bind_assoc', Exec.bind_val']
+    rw [finish_eq hb]
+    congr 1
+    simp [toNats]
+  | smallReliable seq ch msgs =>
+    unfold Packet.enc at henc
+    obtain ⟨s, hs, h⟩ := bind_ok_inv henc
+    obtain ⟨body, hbody, h⟩ := bind_ok_inv h
+    obtain ⟨hv0, rfl⟩ := putVarint_ok hs
+    obtain ⟨hm, hflat⟩ := encSmallRel_ok hbody
+    cases h
+    unfold Src.renet.packet.Packet.to_bytes
+    simp only [reprPacket, Exec.bind_eq, Exec.pure_eq]
+    rw [W_start hb (fun b' => (Exec.callFrom SerializationError.from_BufferTooShortError (OctetsMut.put_u8 b' 0)).bind _)]
+    simp only [step_u8, step_u16, step_varint hv0, Exec.bind_assoc']
+    rw [forEach_chain _ (fun x => toNats (Varint.enc x.1) ++ toNats (Varint.enc x.2.length) ++ x.2)]
+    · rw [finish_eq hb]
+      congr 1
+      simp only [toNats, List.append_assoc] at hflat
+      simp [toNats, u16be, RustSem.cast, RustSem.len, Function.comp_def]
+      exact ⟨by omega, hflat.symm⟩
+    · intro x hx b' hb'
+      obtain ⟨y, hy, rfl⟩ := List.mem_map.mp hx
+      obtain ⟨hy1, hy2⟩ := hm y hy
+      rw [W_start hb' (fun b => (Exec.callFrom SerializationError.from_BufferTooShortError (OctetsMut.put_varint b _)).bind _)]
+      have hl : RustSem.len (toNats y.2) = y.2.length := len_toNats _
+      simp only [hl, cast64_of_le_max hy2, step_varint hy1, step_varint hy2, step_bytes, Exec.bind_val_id, toNats_length]
+      simp
+  | smallUnreliable seq ch msgs =>
+    unfold Packet.enc at henc
+    obtain ⟨s, hs, h⟩ := bind_ok_inv henc
+    obtain ⟨body, hbody, h⟩ := bind_ok_inv h
+    obtain ⟨hv0, rfl⟩ := putVarint_ok hs
+    obtain ⟨hm, hflat⟩ := encSmallUnrel_ok hbody
+    cases h
+    unfold Src.renet.packet.Packet.to_bytes
+    simp only [reprPacket, Exec.bind_eq, Exec.pure_eq]
+    rw [W_start hb (fun b' => (Exec.callFrom SerializationError.from_BufferTooShortError (OctetsMut.put_u8 b' 1)).bind _)]
+    simp only [step_u8, step_u16, step_varint hv0, Exec.bind_assoc']
+    rw [forEach_chain _ (fun x => toNats (Varint.enc x.length) ++ x)]
+    · rw [finish_eq hb]
+      congr 1
+      simp only [toNats] at hflat
+      simp [toNats, u16be, RustSem.cast, RustSem.len, Function.comp_def]
+      exact ⟨by omega, hflat.symm⟩
+    · intro x hx b' hb'
+      obtain ⟨y, hy, rfl⟩ := List.mem_map.mp hx
+      have hy2 := hm y hy
+      rw [W_start hb' (fun b => (Exec.callFrom SerializationError.from_BufferTooShortError (OctetsMut.put_varint b _)).bind _)]
+      have hl : RustSem.len (toNats y) = y.length := len_toNats _
+      simp only [hl, cast64_of_le_max hy2, step_varint hy2, step_bytes, Exec.bind_val_id, toNats_length]
+      simp
+  | unreliableSlice seq ch sl =>
+    unfold Packet.enc at henc
+    obtain ⟨s, hs, h⟩ := bind_ok_inv henc
+    obtain ⟨body, hbody, h⟩ := bind_ok_inv h
+    unfold encSlice at hbody
+    obtain ⟨a1, h1, hbody⟩ := bind_ok_inv hbody
+    obtain ⟨a2, h2, hbody⟩ := bind_ok_inv hbody
+    obtain ⟨a3, h3, hbody⟩ := bind_ok_inv hbody
+    obtain ⟨a4, h4, hbody⟩ := bind_ok_inv hbody
+    obtain ⟨hv0, rfl⟩ := putVarint_ok hs
+    obtain ⟨hv1, rfl⟩ := putVarint_ok h1
+    obtain ⟨hv2, rfl⟩ := putVarint_ok h2
+    obtain ⟨hv3, rfl⟩ := putVarint_ok h3
+    obtain ⟨hv4, rfl⟩ := putVarint_ok h4
+    cases hbody; cases h
+    unfold Src.renet.packet.Packet.to_bytes
+    simp only [reprPacket, reprSlice, Exec.bind_eq, Exec.pure_eq]
+    rw [W_start hb (fun b' => (Exec.callFrom SerializationError.from_BufferTooShortError (OctetsMut.put_u8 b' 3)).bind _)]
+    simp only [cast64_of_le_max hv2, cast64_of_le_max hv3, cast64_of_le_max hv4, len_toNats,
+      step_u8, step_varint hv0, step_varint hv1, step_varint hv2, step_varint hv3, step_varint hv4, step_bytes,
+      Exec.bind_assoc', Exec.bind_val']
+    rw [finish_eq hb]
+    congr 1
+    simp [toNats]
+  | ack seq ranges =>
+    unfold Packet.enc at henc
+    obtain ⟨s, hs, h⟩ := bind_ok_inv henc
+    obtain ⟨hv0, rfl⟩ := putVarint_ok hs
+    cases hrev : ranges.reverse with
+    | nil => rw [hrev] at h; cases h
+    | cons last rest =>
+      obtain ⟨ls, le⟩ := last
+      rw [hrev] at h
+      simp only at h
+      obtain ⟨le1, hle1, h⟩ := bind_ok_inv h
+      obtain ⟨size, hsize, h⟩ := bind_ok_inv h
+      obtain ⟨a, ha, h⟩ := bind_ok_inv h
+      obtain ⟨c, hc, h⟩ := bind_ok_inv h
+      obtain ⟨d, hd, h⟩ := bind_ok_inv h
+      obtain ⟨r, hr, h⟩ := bind_ok_inv h
+      obtain ⟨c1, rfl⟩ := csub_ok hle1
+      obtain ⟨c2, rfl⟩ := csub_ok hsize
+      obtain ⟨hva, rfl⟩ := putVarint_ok ha
+      obtain ⟨hvc, rfl⟩ := putVarint_ok hc
+      obtain ⟨hvd, rfl⟩ := putVarint_ok hd
+      cases h
+      unfold Src.renet.packet.Packet.to_bytes
+      have hrev' : (ranges.map reprRange).reverse = reprRange (ls, le) :: rest.map reprRange := by
+        rw [← List.map_reverse, hrev]; rfl
+      simp only [reprPacket, Exec.bind_eq, Exec.pure_eq, hrev', List.head?_cons, List.tail_cons, RustSem.unwrap, reprRange]
+      rw [W_start hb (fun b' => (Exec.callFrom SerializationError.from_BufferTooShortError (OctetsMut.put_u8 b' 4)).bind _)]
+      have hl : RustSem.len (List.map reprRange rest) = rest.length := by
+        simp [RustSem.len]
+      simp only [step_u8, step_varint hv0, Exec.bind_assoc', Exec.bind_val', sub_val c1, sub_val c2, hl,
+        cast64_of_le_max hvd, step_varint hva, step_varint hvc, step_varint hvd]
+      rw [ack_loop rest _ ?hbody ls r hr]
+      case hbody =>
+        intro s e prev b' hb' k1 k2 k3 k4 k5 k6
+        simp only [sub_val k1, sub_val k2, sub_val k3, sub_val k4, Exec.bind_val']
+        rw [W_start hb' (fun b => (Exec.callFrom SerializationError.from_BufferTooShortError (OctetsMut.put_varint b _)).bind _)]
+        simp only [step_varint k5, step_varint k6, List.nil_append]
+      rw [finish_eq hb]
+      congr 1
+      simp [toNats]
+end D
 end RenetVerif.SrcEquiv
